@@ -473,7 +473,7 @@ func runAll(c *run.Ctx) {
 			c.Case("typed-empty", idx, func(k *run.K) { opsOn(k, model.Tree{Type: typ, CT: ct}) })
 		}
 	}
-	for i := 0; i < c.N(5000, 120000); i++ {
+	for i := 0; i < c.N(15000, 150000); i++ {
 		c.Case("tree", i, func(k *run.K) {
 			typ := model.Types[k.Rng.Intn(7)]
 			ct := model.CTypes[k.Rng.Intn(4)]
@@ -482,7 +482,7 @@ func runAll(c *run.Ctx) {
 			opsOn(k, t)
 		})
 	}
-	for i := 0; i < c.N(3000, 80000); i++ {
+	for i := 0; i < c.N(9000, 100000); i++ {
 		c.Case("valid", i, func(k *run.K) {
 			g := &gen.G{R: k.Rng, Cfg: gen.NewCfg(k.Rng, gen.DSmall)}
 			x := g.Rich(2)
@@ -491,7 +491,7 @@ func runAll(c *run.Ctx) {
 			opsOn(k, t)
 		})
 	}
-	for i := 0; i < c.N(4000, 80000); i++ {
+	for i := 0; i < c.N(12000, 100000); i++ {
 		c.Case("mixed", i, mixed)
 	}
 }
